@@ -17,20 +17,20 @@ pub fn def() -> CheckDef {
         level: "exploration",
         assumptions: &["monotone simulated clock", "message generation order is read from the id shim's sequence numbers", "no storage errors are injected"],
         probes: &["probe.delivery_order_differs_from_generation", "probe.caught_error", "probe.msg_act", "probe.non_complete_ending"],
-        quick_cases: 3000,
+        quick_cases: 6000,
         no_shrink: &[],
     }
 }
 
 const OPTS: LifeOpts = LifeOpts {
     catches: true,
-    scripted_actions: &["complete", "submit", "skip", "abort", "error", "back", "cancel", "remove"],
+    scripted_actions: &["cancel_prev", "complete", "submit", "skip", "abort", "error", "back", "cancel", "remove"],
     p_scripted: 350,
     adversary: None,
     dup: true,
     generators: true,
     hooks: false,
-    outputs: true,
+    outputs: true, drop_outputs: true
 };
 
 pub fn case(ctx: &mut CaseCtx) -> CaseOut {
